@@ -60,7 +60,7 @@ Definition corr_parse (c : pcase) : bool :=
 Definition corr_lex (c : pcase) : bool :=
   match p_ast c, lex_spec (p_spec c) with
   | Some a, Some a' => cronspec_eqb a a'
-  | Some _, None => false
+  | Some a, None => negb (wf_spec a)
   | None, _ => true
   end.
 
